@@ -88,10 +88,23 @@ CLAIMED = {
             "design_ref": "DESIGN.md 3/C07", "note": "mzd_pluq replaced by _mzd_pluq_naive when compiling solve.c.", "technique": "bounded model checking against spec-side rank/product"},
 }
 
+CLAIMED["C12"] = {
+    "level": "model_checking",
+    "text": "The identical contracts / product specs are re-checked under generated configurations: SSE2 off (scalar fallbacks of row_add_offset, combine, _mzd_add), the smallest in-domain cache triple (4 KiB, 32 KiB, 64 KiB; strip heights, block size, default cutoff), both, and the thread-safe build (block and header caches off); table parameter k in {0,1,2,3,9} and cutoffs {0,1,64,100,4096} on the multiplication entry points; unbounded part: the Strassen orchestration is proved for an arbitrary cutoff and an arbitrary default cutoff (libm stub returns any value).",
+    "design_ref": "DESIGN.md 3/C12 and 8",
+    "note": "bounded shapes inherited from the carriers; OpenMP on is not covered; only two cache triples are instantiated.",
+    "technique": _TB + "; repeated per generated m4ri_config.h variant",
+}
+CLAIMED["C18"] = {
+    "level": "model_checking",
+    "text": "The real io.c linked against written-out ASSUMED contracts of stdio and libpng: mzd_from_str builds exactly the denoted matrix reading exactly m*n characters; mzd_from_jcf on arbitrary token streams / header fields never accesses memory outside the matrix, rejects bad headers with NULL and builds the denoted matrix; mzd_from_png with an arbitrary IHDR (bit depth, colour type, channels, interlace) stays inside its row buffer and rejects unsupported files; mzd_to_png followed by mzd_from_png is the identity for column counts in every residue class mod 8 and around 64.",
+    "design_ref": "DESIGN.md 3/C18 and 8",
+    "note": "libpng/stdio are assumptions (stubs/png_stub.c, stubs/stdio_stub.c); malformed file bytes (truncation, CRC) are libpng's domain and not modelled; dimensions enumerated (<= 3 x 130).",
+    "technique": "bounded model checking of the real io.c against assumed contracts of its external libraries (cbmc)",
+}
+
 NOT_APPLICABLE = {
     "C15": "thread interleavings: CBMC's contract instrumentation is sequential; no contract within reach expresses or decides race freedom of 2..16 threads (DESIGN.md 3/C15)",
     "C16": "OpenMP pragmas have no semantics in goto-cc and mp.c is empty in the pinned configuration; a contract proof of the sequential text would say nothing about sections/schedules (DESIGN.md 3/C16)",
-    "C12": "no check of its own yet: the configuration dimension (SSE2 off, small caches) is only exercised by thorough-tier groups of C01/C02/C03; not claimed (DESIGN.md 3/C12)",
-    "C18": "file I/O needs assumed contracts for libpng/stdio; not built in this round, nothing claimed (DESIGN.md 3/C18)",
 }
 HOOK_COMMITS = ["bec967df864dbebefd0e73acdfb14866f9a11d94"]
